@@ -206,7 +206,10 @@ class SymReal:
     def __rsub__(self, o): return self._rbin(o, "-")
     def __mul__(self, o): return self._bin(o, "*")
     def __rmul__(self, o): return self._rbin(o, "*")
-    def __truediv__(self, o): return self._bin(o, "/")
+    def __truediv__(self, o):
+        if is_num(o) and isinstance(o, (float, _np.floating)) and math.isinf(float(o)):
+            return SymReal(z3.RealVal(0), 1)      # finite / +-inf = 0 exactly
+        return self._bin(o, "/")
     def __rtruediv__(self, o): return self._rbin(o, "/")
 
     def __neg__(self):
@@ -225,6 +228,9 @@ class SymReal:
         return cur().power(SymReal.lift(b), self)
 
     def _cmp(self, o, op):
+        if is_num(o) and isinstance(o, (float, _np.floating)) and math.isinf(float(o)):
+            pos = float(o) > 0          # a symbolic real is finite: x < +inf, x > -inf
+            return {"<": pos, "<=": pos, ">": not pos, ">=": not pos, "==": False, "!=": True}[op]
         b = SymReal.lift(o)
         if b is None:
             return NotImplemented
